@@ -640,7 +640,20 @@ pub fn valid_frame(rng: &mut Rng) -> (Frame, String) {
     }
     let ck = rng.chance(1, 2);
     label.push_str(&format!(" wdesc={:#x} ck={}", wdesc, ck));
-    (Frame::simple(blocks, wdesc, ck), label)
+    let mut f = Frame::simple(blocks, wdesc, ck);
+    // optional header fields that do not change the content: a Dictionary_ID field that holds 0 ("no dictionary", legal,
+    // in every field width) and a Frame_Content_Size field next to the window descriptor
+    if rng.chance(1, 4) {
+        let w = *rng.pick(&[1u8, 2, 3]);
+        f.dict_id = Some((w, 0));
+        label.push_str(&format!(" dictid0/{}B", [0, 1, 2, 4][w as usize]));
+    }
+    if rng.chance(1, 4) {
+        f.write_fcs = true;
+        f.fcs_flag = *rng.pick(&[2u8, 3]);
+        label.push_str(&format!(" fcs_flag={}", f.fcs_flag));
+    }
+    (f, label)
 }
 
 /// A structure-aware hostile frame: a valid plan with one thing broken on purpose.
